@@ -680,8 +680,12 @@ _public_ int m_mod_start(m_mod_t *mod) {
     M_MOD_ASSERT_STATE(mod, M_MOD_IDLE | M_MOD_STOPPED);
     M_MOD_CONSUME_TOKEN(mod);
     
-    int ret = start(mod, true);
-    M_MOD_BOUND(m_mod_start);
+    int ret;
+    /* Callbacks may deregister the module and drop the very reference we were called with */
+    M_MEM_LOCK(mod, {
+        ret = start(mod, true);
+        M_MOD_BOUND(m_mod_start);
+    });
     return ret;
 }
 
@@ -689,8 +693,12 @@ _public_ int m_mod_pause(m_mod_t *mod) {
     M_MOD_ASSERT_STATE(mod, M_MOD_RUNNING);
     M_MOD_CONSUME_TOKEN(mod);
     
-    int ret = stop(mod, false);
-    M_MOD_BOUND(m_mod_pause);
+    int ret;
+    /* Callbacks may deregister the module and drop the very reference we were called with */
+    M_MEM_LOCK(mod, {
+        ret = stop(mod, false);
+        M_MOD_BOUND(m_mod_pause);
+    });
     return ret;
 }
 
@@ -698,8 +706,12 @@ _public_ int m_mod_resume(m_mod_t *mod) {
     M_MOD_ASSERT_STATE(mod, M_MOD_PAUSED);
     M_MOD_CONSUME_TOKEN(mod);
     
-    int ret = start(mod, false);
-    M_MOD_BOUND(m_mod_resume);
+    int ret;
+    /* Callbacks may deregister the module and drop the very reference we were called with */
+    M_MEM_LOCK(mod, {
+        ret = start(mod, false);
+        M_MOD_BOUND(m_mod_resume);
+    });
     return ret;
 }
 
@@ -707,8 +719,12 @@ _public_ int m_mod_stop(m_mod_t *mod) {
     M_MOD_ASSERT_STATE(mod, M_MOD_RUNNING | M_MOD_PAUSED);
     M_MOD_CONSUME_TOKEN(mod);
     
-    int ret = stop(mod, true);
-    M_MOD_BOUND(m_mod_stop);
+    int ret;
+    /* Callbacks may deregister the module and drop the very reference we were called with */
+    M_MEM_LOCK(mod, {
+        ret = stop(mod, true);
+        M_MOD_BOUND(m_mod_stop);
+    });
     return ret;
 }
 
